@@ -8,6 +8,7 @@ import (
 	"go/types"
 	"os"
 	"path/filepath"
+	"regexp"
 	"sort"
 	"strings"
 
@@ -209,7 +210,7 @@ func C13(r *core.Report) {
 	r.Extra["C13_read_calls"] = nReads
 	c13Downgrade(r, scope)
 	c13ExhaustionExits(r, scope)
-	r.Floor("C13.R1", 3)
+	r.Floor("C13.R1", 2)
 	r.Floor("C13.R2", 15)
 	r.Floor("C13.R3", 40)
 	c18ErrorSliceIsOpaque(r, "C13.R5")
@@ -379,6 +380,28 @@ func exemptKey(table map[string]string, key string) (string, bool) {
 	}
 	if ck, ok := table["short:"+core.ShortKey(key)]; ok && ck != "" {
 		return ck, true
+	}
+	// the same construct of the same function with an operand spelled differently: a local (typed token) against the
+	// getter call it was assigned from - uint8(HashSize)+uint8(‹int›) and uint8(HashSize)+uint8(‹recv›.getValueSize())
+	{
+		loose := looseOperands(key)
+		var hit string
+		n := 0
+		for tk := range table {
+			if strings.HasPrefix(tk, "short:") || tk == key {
+				continue
+			}
+			if i := strings.Index(tk, "#"); i < 0 || !strings.HasPrefix(key, tk[:i+1]) {
+				continue // another function
+			}
+			if looseOperands(tk) == loose && operandsCompatible(tk, key) {
+				hit = tk
+				n++
+			}
+		}
+		if n == 1 {
+			return hit, true
+		}
 	}
 	// the construct moved, unchanged, into a helper that the exempted function calls (split of a long function): an
 	// entry F#construct also covers G#construct when G is a function of the same package that F calls (directly or through
@@ -792,4 +815,39 @@ func c13ExhaustionExits(r *core.Report, scope []*core.Func) {
 		}
 	}
 	r.Extra["C13_exhaustion_loops"] = n
+}
+
+var looseOperandRe = regexp.MustCompile(`‹[^›]*›(\.[A-Za-z_][A-Za-z0-9_]*\(\))?`)
+
+// looseOperands replaces every operand token of a canonical key - a typed local ‹T›, the receiver, a parameter - together
+// with a directly applied zero-argument getter by one placeholder.
+func looseOperands(key string) string {
+	return looseOperandRe.ReplaceAllString(key, "‹·›")
+}
+
+var plainTypeTokenRe = regexp.MustCompile(`^‹[^›]*›$`)
+
+// operandsCompatible: the two keys (equal up to their operands) differ only where one has a typed local ‹T› and the other a
+// zero-argument getter applied to an operand (‹recv›.getValueSize()) - never in a receiver, parameter or type token
+// itself: ‹p0›[‹int›:] and ‹[]byte›[‹int›:] name different buffers.
+func operandsCompatible(a, b string) bool {
+	oa, ob := looseOperandRe.FindAllString(a, -1), looseOperandRe.FindAllString(b, -1)
+	if len(oa) != len(ob) {
+		return false
+	}
+	special := func(t string) bool { return t == "‹recv›" || (strings.HasPrefix(t, "‹p") && len(t) <= 8) || strings.HasPrefix(t, "‹res") }
+	for i := range oa {
+		if oa[i] == ob[i] {
+			continue
+		}
+		x, y := oa[i], ob[i]
+		if strings.HasSuffix(x, "()") {
+			x, y = y, x
+		}
+		// now y should be the getter form and x the plain typed local
+		if !strings.HasSuffix(y, "()") || !plainTypeTokenRe.MatchString(x) || special(x) {
+			return false
+		}
+	}
+	return true
 }
